@@ -4,7 +4,7 @@
 From Coq Require Import List NArith Bool.
 From Conductor Require Import Gen.Generated Model.Archive.
 Import ListNotations.
-Open Scope N_scope.
+Local Open Scope N_scope.
 
 (* ---------------------------------------------------------------------------------------------
    cond archive: Model/ArchiveOut.v is cli/archive.py of the working tree -- handle_output_path takes the decision
